@@ -73,8 +73,11 @@ AddOne(bs) == IF bs = <<>> THEN <<>>                   \* overflow dropped: widt
                    IF bs[n] < 255 THEN [bs EXCEPT ![n] = @ + 1]
                    ELSE Append(AddOne(SubSeq(bs, 1, n - 1)), 0)
 Negate(bs) == AddOne(Complement(bs))                    \* two's complement in Len(bs) bytes
+\* a 32-bit count >= 2^31 is clamped to 2^31 - 1 (TLC integers are 32-bit): either way it exceeds every input here, so
+\* the decoder answers "insufficient" (bytes following a header by accident - a wrongly encoded value - can be anything)
 SmallInt(bs) == IF Len(bs) = 1 THEN bs[1] ELSE IF Len(bs) = 2 THEN bs[1] * 256 + bs[2]
-                ELSE ((bs[1] * 256 + bs[2]) * 256 + bs[3]) * 256 + bs[4]   \* only called for values < 2^31
+                ELSE IF bs[1] >= 128 THEN 2147483647
+                ELSE ((bs[1] * 256 + bs[2]) * 256 + bs[3]) * 256 + bs[4]
 IntShape(neg, magbytes) == [t |-> "int", neg |-> IF StripZeros(magbytes) = <<>> THEN 0 ELSE neg, mag |-> StripZeros(magbytes)]
 UnsignedShape(bs) == IntShape(0, bs)
 SignedShape(bs) == IF bs[1] >= 128 THEN IntShape(1, Negate(bs)) ELSE IntShape(0, bs)
